@@ -333,7 +333,7 @@ class Case:
         base_probe = self.probe(self.nT)
         self.forget_harness_refs()
         base_api = self.api_snapshot()
-        base_size, base_types = G.measure(r.sio, extra_skip=(r, r.d))
+        base_size, base_types = G.measure(r.sio, extra_skip=(r, r.d), with_module_state=True)
         # the history under test, dry run on a scratch server to count
         # handler invocations
         scratch = S.Runner(self.cfg)
@@ -398,9 +398,9 @@ class Case:
                     return
                 self.resync_known()
                 base_api = self.api_snapshot()
-                base_size, base_types = G.measure(r.sio, extra_skip=(r, r.d))
+                base_size, base_types = G.measure(r.sio, extra_skip=(r, r.d), with_module_state=True)
                 continue
-            size, types_ = G.measure(r.sio, extra_skip=(r, r.d))
+            size, types_ = G.measure(r.sio, extra_skip=(r, r.d), with_module_state=True)
             ctx.count('graph_size_comparisons')
             if size != base_size:
                 extra['graph_growth'] = G.diff(base_types, types_)
@@ -423,7 +423,7 @@ class Case:
                     return
                 self.resync_known()
                 base_api = self.api_snapshot()
-                base_size, base_types = G.measure(r.sio, extra_skip=(r, r.d))
+                base_size, base_types = G.measure(r.sio, extra_skip=(r, r.d), with_module_state=True)
                 continue
             ctx.case((self.kind, self.cfg['serializer'], end,
                       'nofault' if fault is None else handler_kind,
@@ -531,7 +531,7 @@ def refusal_race(ctx, k):
             keep.connect('/')
         d.transports = [t for t in d.transports if t.alive]
         d.clear_errors()
-        base = G.measure(d.sio, extra_skip=(d,))
+        base = G.measure(d.sio, extra_skip=(d,), with_module_state=True)
         t = d.open()
         frame = RR.encode(RR.CONNECT, '/', None, None)[0]
         state['armed'] = True
@@ -565,7 +565,7 @@ def refusal_race(ctx, k):
         d.clear_errors()
         ctx.count('refusal_races')
         m = d.sio.manager
-        size = G.measure(d.sio, extra_skip=(d,))
+        size = G.measure(d.sio, extra_skip=(d,), with_module_state=True)
         w['internals'] = jsonable({
             'rooms': {str(ns): {str(room): sorted(b.keys())
                                 for room, b in rooms.items()}
@@ -649,7 +649,7 @@ def late_work_race(ctx, k):
         t0.lose()
         d.transports = [t for t in d.transports if t.alive]
         d.clear_errors()
-        base = G.measure(d.sio, extra_skip=(d,))
+        base = G.measure(d.sio, extra_skip=(d,), with_module_state=True)
         t = d.open()
         t.connect('/')
         sid = t.sids['/']
@@ -723,7 +723,7 @@ def late_work_race(ctx, k):
         d.clear_errors()
         ctx.count('late_work_races')
         m = d.sio.manager
-        size = G.measure(d.sio, extra_skip=(d,))
+        size = G.measure(d.sio, extra_skip=(d,), with_module_state=True)
         w['internals'] = jsonable({
             'callbacks': {str(kk): len(v) for kk, v in m.callbacks.items()},
             'binary_packet_keys': len(d.sio._binary_packet),
@@ -795,7 +795,7 @@ def late_ops_with_bystander(ctx, k):
         b.packets[:] = []
         d.transports = [t for t in d.transports if t.alive]
         d.clear_errors()
-        base = G.measure(d.sio, extra_skip=(d,))
+        base = G.measure(d.sio, extra_skip=(d,), with_module_state=True)
         a = d.open()
         a.connect(ns)
         sid = a.sids[ns]
@@ -848,7 +848,7 @@ def late_ops_with_bystander(ctx, k):
                           'namespace alive' % (end, listed or rooms_api,
                                                ', '.join(late)), w)
             return
-        size = G.measure(d.sio, extra_skip=(d,))
+        size = G.measure(d.sio, extra_skip=(d,), with_module_state=True)
         if size[0] != base[0]:
             w['graph_growth'] = G.diff(base[1], size[1])
             ctx.violation(None, 'after a client came and went (%s; late '
